@@ -71,14 +71,14 @@ func PrepareC20(ctx *Ctx) (*Prepared, error) {
 	}
 	p.Programs = 1
 	p.Bounds = map[string]interface{}{
-		"operands":        "every bit of every operand symbolic (all 2^8..2^64 values; float NaN payloads included as raw bit patterns; GUID 16 symbolic bytes)",
-		"buffers":         "exact width and width+2 (guard bytes symbolic), every shorter length 0..width-1 for the panic-not-overrun clause",
-		"string_buffers":  "ReadStringBytes on fully symbolic buffers of every length 0..12",
-		"fragmentation":   "every read-fragmentation schedule for widths <= 8; GUID: every schedule of the first 2 reads; date: first 3 reads",
-		"failure_points":  "underlying reader fails after k = 0..width-1 bytes, error in {io.EOF, io.ErrUnexpectedEOF, opaque}, with and without data returned alongside the error",
+		"operands":         "every bit of every operand symbolic (all 2^8..2^64 values; float NaN payloads included as raw bit patterns; GUID 16 symbolic bytes)",
+		"buffers":          "exact width and width+2 (guard bytes symbolic), every shorter length 0..width-1 for the panic-not-overrun clause",
+		"string_buffers":   "ReadStringBytes on fully symbolic buffers of every length 0..12",
+		"fragmentation":    "every read-fragmentation schedule for widths <= 8; GUID: every schedule of the first 2 reads; date: first 3 reads",
+		"failure_points":   "underlying reader fails after k = 0..width-1 bytes, error in {io.EOF, io.ErrUnexpectedEOF, opaque}, with and without data returned alongside the error",
 		"scratch_prestate": "8 symbolic bytes left by a preceding successful ReadUint64 (two runs differing only in those bytes)",
-		"date_range":      "|tick| <= floor((2^63-1)/100); ticks whose product with 100 overflows int64 are outside the claim",
-		"tier_mode":       map[string]string{"quick": "rewriting on, every rewrite instance validated by a solver query", "thorough": "rewriting off: all obligations discharged by the solver on the unsimplified encoding"}[ctx.Tier],
+		"date_range":       "|tick| <= floor((2^63-1)/100); ticks whose product with 100 overflows int64 are outside the claim",
+		"tier_mode":        map[string]string{"quick": "rewriting on, every rewrite instance validated by a solver query", "thorough": "rewriting off: all obligations discharged by the solver on the unsimplified encoding"}[ctx.Tier],
 	}
 	p.Assumptions = []string{
 		"64-bit little-endian target (amd64): int = 64 bits; unsafe casts of &buf[i] modelled as little-endian access to consecutive byte cells of the backing array",
